@@ -3,10 +3,15 @@ package main
 // C07 — a failing stream is reported, never mistaken for a clean end.
 
 import (
+	"bufio"
 	"bytes"
+	"compress/flate"
+	"compress/gzip"
+	"context"
 	"errors"
 	"fmt"
 	"io"
+	"io/fs"
 	"iter"
 	"math/rand/v2"
 	"net"
@@ -57,7 +62,16 @@ var faultErrors = []error{errInjected, io.ErrUnexpectedEOF, io.ErrClosedPipe, io
 	&os.PathError{Op: "read", Path: "/dev/stdin", Err: syscall.EIO},
 	// errors that describe themselves as temporary or as a timeout (Temporary() / Timeout() true): still failures
 	// of this stream as far as the decoder can know — nothing says a retry would succeed, and none is promised
-	syscall.EAGAIN, syscall.EINTR, os.ErrDeadlineExceeded, &net.OpError{Op: "read", Net: "tcp", Err: timeoutErr{}}}
+	syscall.EAGAIN, syscall.EINTR, os.ErrDeadlineExceeded, &net.OpError{Op: "read", Net: "tcp", Err: timeoutErr{}},
+	// errors of the layers a stream usually comes through — decompression, a cancelled context, a closed file, a
+	// buffer of the caller's own: what a decompressor calls "trailing garbage" or a "bad header" is a failed read
+	gzip.ErrHeader, gzip.ErrChecksum, fmt.Errorf("reading member 2: %w", gzip.ErrHeader), flate.CorruptInputError(7),
+	context.Canceled, fs.ErrClosed, io.ErrShortBuffer}
+
+// (Not in the list: bufio.ErrBufferFull. bufio.Reader.ReadLine takes that value from its source for its own
+// "line longer than the buffer" signal, so a source that returns it is indistinguishable from a long line to any
+// decoder built on the standard library — an alarm raised with it says nothing about the decoder.)
+var _ = bufio.ErrBufferFull
 
 type timeoutErr struct{}
 
